@@ -404,7 +404,28 @@ def random_histories(ns, out, tid0, seeds, n_ops):
                       for s in live[live[ups[0]].usage_journey.name].uj_steps[:1]] or
                      live[live[ups[0]].usage_journey.name].uj_steps.extend([live["s_B"]])),
         ]
-        what, fn = attempts[seed % len(attempts)]
+        # the same through an object that is in NO system yet: a new job running on the other system's server (or a new step holding
+        # such a job) linked into this system -- the walk over what the new object brings along must reach that server
+
+        def fresh_job():
+            return ns.classes["Job"].from_defaults("fresh job", server=live["sv_B"])
+
+        def fresh_step():
+            return ns.classes["UsageJourneyStep"].from_defaults("fresh step", jobs=[fresh_job()])
+        first_uj = live[live[ups[0]].usage_journey.name]
+        if len(first_uj.uj_steps):
+            attempts += [
+                ("step.jobs.append(new job on the server of the other system)", lambda: first_uj.uj_steps[0].jobs.append(fresh_job())),
+                ("step.jobs = [new job on the server of the other system]",
+                 lambda: setattr(live[first_uj.uj_steps[0].name], "jobs", [fresh_job()])),
+            ]
+        attempts += [
+            ("journey.uj_steps.append(new step with a new job on the server of the other system)",
+             lambda: first_uj.uj_steps.append(fresh_step())),
+            ("journey.uj_steps += [new step with a new job on the server of the other system]",
+             lambda: setattr(first_uj, "uj_steps", first_uj.uj_steps.__iadd__([fresh_step()]))),
+        ]
+        what, fn = attempts[(seed * 7 + 3) % len(attempts)] if seed % 2 else attempts[seed % len(attempts)]
         if "job.server" in what and not any(type(o).__name__ == "Job" and not n.endswith("_B") and o.systems
                                             for n, o in live.items()):
             what, fn = attempts[0]          # no job of the first system to re-point
